@@ -4,16 +4,35 @@ from props import PROPS
 import re
 
 
+def _wild_match(model, impl):
+    """model with ',?]' wildcards (= ',' + any run of non-']' characters + ']') matches impl entirely.
+    Hand-written: a compiled regex of a megabyte-long line costs gigabytes."""
+    segs = model.split(",?]")
+    if not impl.startswith(segs[0]):
+        return False
+    pos = len(segs[0])
+    for seg in segs[1:]:
+        if pos >= len(impl) or impl[pos] != ",":
+            return False
+        close = impl.find("]", pos + 1)
+        if close < 0:
+            return False
+        pos = close + 1
+        if not impl.startswith(seg, pos):
+            return False
+        pos += len(seg)
+    return pos == len(impl)
+
+
 def _equal(case, impl, model):
     if impl != model:
         if ",?]" not in model:
             return False
         # value of a Lua aux record whose reader failed (malformed input only): unspecified, wildcard
-        pat = re.escape(model).replace(re.escape(",?]"), ",[^\\]]*\\]")
-        if not re.fullmatch(pat, impl):
+        if not _wild_match(model, impl):
             return False
     f = case.split(" ")
-    if f[2] == "wf" and "end=ok" not in impl:
+    if f[2].startswith("wf") and "end=ok" not in impl:
         return False    # the generator built a well-formed file: the parser must accept it and verify the footer
     return True
 
